@@ -8,8 +8,10 @@ import orc
 
 
 def rand_reward(rng, pops, n, lc):
-    base = [['TreeHeight'], ['TotalBranchLength'], ['Deme', rng.choice(pops)], ['TotalTreeHeight']]
-    base += [['Lineage', rng.randrange(2, n + 1)]] if lc else [['UnfoldedSFS', rng.randrange(1, n)], ['FoldedSFS', rng.randrange(1, n // 2 + 1)]]
+    base = [['TreeHeight'], ['TotalBranchLength'], ['Deme', rng.choice(pops)]]
+    # TotalTreeHeightReward declares block-counting support but raises NotImplementedError there (loud): only used
+    # on the lineage-counting space
+    base += [['Lineage', rng.randrange(2, n + 1)], ['TotalTreeHeight']] if lc else [['UnfoldedSFS', rng.randrange(1, n)], ['FoldedSFS', rng.randrange(1, n // 2 + 1)]]
     r = rng.choice(base)
     x = rng.random()
     if x < 0.2:
